@@ -31,9 +31,9 @@ MANIFEST = {
     "technique": "Lean 4 theorems over executable agent models; models tied by regenerated tables and a differential rig",
     "design_ref": "5/C19",
 }
-MODULES = ["PrimaiteModel.Props.C19", "PrimaiteModel.Props.C19Sched", "PrimaiteModel.Props.C19Run", "PrimaiteModel.Props.C19Params"]
+MODULES = ["PrimaiteModel.Props.C19", "PrimaiteModel.Props.C19Sched", "PrimaiteModel.Props.C19Run", "PrimaiteModel.Props.C19Params", "PrimaiteModel.Props.C19Sampler"]
 EXE = "drv_c19"
-KINDS = ["periodic", "prob", "tap1", "tap3", "rand"]
+KINDS = ["periodic", "prob", "probn", "tap1", "tap3", "rand"]
 
 
 def _diff_case(case: dict):
@@ -73,7 +73,7 @@ def replay(rec: dict) -> bool:
 
 
 def kind_is_prob(case: dict) -> bool:
-    return case.get("agent") == "prob"
+    return case.get("agent") in ("prob", "probn")
 
 
 def _gen_obligations(ctx: Ctx):
@@ -112,7 +112,7 @@ def run(ctx: Ctx):
         if "case" in rec:
             cases.append(("corpus:" + f.name, rec["case"]))
     per_kind = {"periodic": ctx.scale(250, 4000), "prob": ctx.scale(250, 4000), "tap1": ctx.scale(300, 5000), "tap3": ctx.scale(300, 5000),
-                "rand": ctx.scale(60, 600)}
+                "rand": ctx.scale(60, 600), "probn": ctx.scale(120, 2000)}
     for kind in KINDS:
         rng = ctx.rng.fork("agents:" + kind)
         for k in range(per_kind[kind]):
@@ -137,6 +137,12 @@ def run(ctx: Ctx):
         if any(m == "bad-op" for m, i in zip(model, impl) if i != "bad-op"):
             raise RuntimeError(f"driver rejected a line of {name}")
         _histogram(ctx, kind, case, impl)
+        if kind == "probn":
+            d = sum(w for _, w in case["table"]) - case["den"]
+            ctx.count("probn:sum-1 in 2^-30 units:" + ("0" if d == 0 else ("<=16 (inside numpy's band)" if abs(d) <= 16 else
+                      ("17..1073 (validator accepts, numpy raises)" if abs(d) <= 1073 else ">1073 (validator rejects)"))))
+            if any(w < 0 for _, w in case["table"]):
+                ctx.count("probn:negative-entry")
         ctx.case(case, _nontrivial(kind, case, impl))
         for p in problems:
             if p.startswith("params: "):
@@ -148,7 +154,7 @@ def run(ctx: Ctx):
             ctx.oblige(f"rig:draw-ranges:{name}", "correspondence", False, p)
         a, b = rig.normalise(case, impl, model)
         # property oracle evaluated on the implementation alone
-        if kind == "prob":
+        if kind in ("prob", "probn"):
             bad = _oracle_prob(case, a)
             if bad:
                 ctx.violation({"kind": "oracle", "agent": "probabilistic-agent", "what": "zero-probability-action-selected",
@@ -190,6 +196,8 @@ def _nontrivial(kind: str, case: dict, impl: List[str]) -> bool:
         return sum(1 for l in impl if l.startswith("exec")) >= 2 or any(l.startswith("raised") for l in impl)
     if kind == "prob":
         return any(w == 0 for _, w in case["table"]) and any(l.startswith("chose") for l in impl)
+    if kind == "probn":
+        return (any(w == 0 for _, w in case["table"]) and any(l.startswith("chose") for l in impl)) or any(l.startswith("r") for l in impl)
     if kind == "rand":
         return len({l for l in impl}) > 1 or any(l.startswith("raised") for l in impl)
     stages = {l.split("|")[1].split()[0] for l in impl if "|" in l}
